@@ -226,6 +226,9 @@ class C08(World):
                     tt = round(ts + args.choice([-1, 1]) * args.uniform(0.5, 150), args.choice([0, 1, 3]))
                 streams.append(dict(name=f"S{k}", t_supply=float(ts), t_target=float(tt), heat_flow=float(args.choice([50, 100, 400, 1000])) if nice else round(args.uniform(1, 3000), 2), dt_cont=float(args.choice([0, 5, 10])), htc=1.0))
             steps.append(dict(op="build", source=swarm["source"], streams=streams, shifted=swarm["shifted"]))
+            if args.random() < 0.15:
+                # work on a column subset in another order, as `pt[[...]]` returns it
+                steps.append(dict(op="subset", order=[args.randrange(1000) for _ in range(12)], keep_dt=args.random() < 0.7))
         else:
             n = args.choice([2, 3, 4, 6, 10]) if not bulk else args.choice([64, 90, 130])
             T = [float(args.choice([400, 300, 250.5]))]
@@ -363,7 +366,7 @@ class C08(World):
                 pt = self._build(st)
                 original = table_view(pt) if pt is not None else None
                 if original is not None:
-                    original["cols"] = {name: (original["T"], original["data"][:, original["ci"][name]]) for name in CURVES}
+                    original["cols"] = {name: (original["T"], original["data"][:, original["ci"][name]]) for name in CURVES if name in original["ci"]}
                 log.append(["build", None if pt is None else pt.data.shape[0]])
                 continue
             if op == "synthetic":
@@ -380,8 +383,8 @@ class C08(World):
                 d.update(st["extras"])
                 pt = ProblemTable(d)
                 original = table_view(pt)
-                original["cols"] = {name: (original["T"], original["data"][:, original["ci"][name]]) for name in CURVES}
-                if any(np.isnan(pt.data[:, pt.col_index[c]]).all() for c in CURVES):
+                original["cols"] = {name: (original["T"], original["data"][:, original["ci"][name]]) for name in CURVES if name in original["ci"]}
+                if any(np.isnan(pt.data[:, pt.col_index[c]]).all() for c in CURVES if c in pt.col_index):
                     probe("nan_column_present")
                 log.append(["synthetic", n, sorted(st["curves"])])
                 continue
@@ -393,6 +396,23 @@ class C08(World):
                 pt = pt.copy
                 probe("continued_on_a_copy")
                 log.append([op])
+                continue
+            if op == "subset":
+                ci_ = pt.col_index
+                # every column kept, only their order changes (a table that lacks columns altogether is not a problem table
+                # the method accepts: it raises KeyError for it on the unchanged tree, which is recorded, not judged)
+                cols_ = ["T"] + [c for c in pt.columns if c != "T"]
+                keyed = sorted(range(1, len(cols_)), key=lambda i_: (st["order"][i_ % len(st["order"])], i_))
+                cols_ = ["T"] + [cols_[i_] for i_ in keyed] if st["keep_dt"] else [cols_[i_] for i_ in keyed[: len(keyed) // 2]] + ["T"] + [cols_[i_] for i_ in keyed[len(keyed) // 2 :]]
+                try:
+                    pt = pt[cols_]
+                except Exception as e:
+                    log.append([op, "raise", type(e).__name__])
+                    continue
+                original = table_view(pt)
+                original["cols"] = {name: (original["T"], original["data"][:, original["ci"][name]]) for name in CURVES if name in original["ci"]}
+                probe("table_is_a_column_subset_in_another_order")
+                log.append([op, cols_])
                 continue
             if op == "readonly":
                 try:  # read-only surface of the table: must not disturb anything (judged by the checks of the next insertion)
@@ -410,7 +430,7 @@ class C08(World):
                 continue
             if op == "shift":
                 ci_ = pt.col_index
-                pop = [c for c in CURVES if not np.isnan(pt.data[:, ci_[c]]).any()]
+                pop = [c for c in CURVES if c in ci_ and not np.isnan(pt.data[:, ci_[c]]).any()]
                 if not pop:
                     log.append([op, "skip"])
                     continue
@@ -425,8 +445,12 @@ class C08(World):
                 continue
             if op == "populate":
                 ci_ = pt.col_index
-                nan_cols = [c for c in CURVES if np.isnan(pt.data[:, ci_[c]]).all()]
-                pool = nan_cols if (st["prefer_nan"] and nan_cols) else CURVES
+                present_ = [c for c in CURVES if c in ci_]
+                if not present_:
+                    log.append([op, "skip"])
+                    continue
+                nan_cols = [c for c in present_ if np.isnan(pt.data[:, ci_[c]]).all()]
+                pool = nan_cols if (st["prefer_nan"] and nan_cols) else present_
                 name = pool[st["col"] % len(pool)]
                 n = pt.data.shape[0]
                 vals = np.asarray([st["vals"][i % len(st["vals"])] + 0.37 * i for i in range(n)], dtype=float)
@@ -520,7 +544,7 @@ class C08(World):
             history.append((form, req))
             applied.append(bk)
             log.append([op, form, [repr(x) for x in req], ret, prng.digest([repr(x) for x in pt.data.ravel().tolist()])])
-            states.add(prng.digest([pt.data.shape[0], sorted(applied), original["data"].shape[1], [bool(np.isnan(original["data"][:, original["ci"][c]]).all()) for c in CURVES]]))
+            states.add(prng.digest([pt.data.shape[0], sorted(applied), original["data"].shape[1], [bool(np.isnan(original["data"][:, original["ci"][c]]).all()) if c in original["ci"] else None for c in CURVES]]))
             if len(viol) > n0 and any(v["check"] in ("order", "count", "raises") for v in viol[n0:]):
                 break
         return dict(violations=viol[:8], digest=prng.digest(log), steps=len(log), stats=stats, states=sorted(states), sim_time=0.0)
